@@ -76,6 +76,7 @@ func TestVerifC01Build(t *testing.T) {
 			rev  uint64
 		}
 		var wants []want
+		sameBlock := false // some relevant v2 contract is revised and resolved by this update
 		for i, k := 0, rng.Intn(5); i < k; i++ {
 			cid := vfBuildID(false, i+1)
 			relevant := rng.Intn(5) != 0
@@ -142,6 +143,7 @@ func TestVerifC01Build(t *testing.T) {
 				MissedHostValue: types.NewCurrency64(uint64(8 + rng.Intn(5)))}
 			d := consensus.V2FileContractElementDiff{V2FileContractElement: types.V2FileContractElement{ID: cid, V2FileContract: fc}}
 			var rev *uint64
+			both := false
 			res := "None"
 			setRes := func(k int) string {
 				switch k {
@@ -181,7 +183,7 @@ func TestVerifC01Build(t *testing.T) {
 					setRes(rng.Intn(3))
 				}
 			} else {
-				switch rng.Intn(3) {
+				switch rng.Intn(4) {
 				case 0:
 					d.Created = true
 					wants = append(wants, want{true, cid, "confirmed", cur})
@@ -193,8 +195,21 @@ func TestVerifC01Build(t *testing.T) {
 						w = cur
 					}
 					wants = append(wants, want{true, cid, "revised", w})
-				default:
+				case 2:
 					wants = append(wants, want{true, cid, setRes(rng.Intn(3)), 0})
+				default:
+					// revised and resolved in the same block (consensus-valid: a revision and a
+					// renewal of one contract can be mined together; core's MidState then merges
+					// both into one diff): both changes must be recorded
+					r := cur + 1 + uint64(rng.Intn(3))
+					rev = &r
+					w := r
+					if revert {
+						w = cur
+					}
+					wants = append(wants, want{true, cid, "revised", w})
+					wants = append(wants, want{true, cid, setRes(rng.Intn(3)), 0})
+					both = true
 				}
 			}
 			res = resTerm()
@@ -203,12 +218,15 @@ func TestVerifC01Build(t *testing.T) {
 				rfc.RevisionNumber = *rev
 				d.Revision = &rfc
 			}
-			if !relevant && len(wants) > 0 && wants[len(wants)-1].id == cid && wants[len(wants)-1].v2 {
+			for !relevant && len(wants) > 0 && wants[len(wants)-1].id == cid && wants[len(wants)-1].v2 {
 				wants = wants[:len(wants)-1]
 			}
 			d2 = append(d2, d)
 			t2 = append(t2, fmt.Sprintf("mkFD2 %d %v %v %d %s %s", i+1, relevant, d.Created, cur, vfOpt(rev), res))
 			em.Count(fmt.Sprintf("v2-diff:created=%v,revised=%v,resolution=%s,relevant=%v", d.Created, rev != nil, res, relevant))
+			if both && relevant {
+				sameBlock = true
+			}
 		}
 
 		state, err := buildContractState(tx, d1, d2, revert, zap.NewNop())
@@ -291,7 +309,9 @@ func TestVerifC01Build(t *testing.T) {
 				k := fmt.Sprintf("%v/%d/%s/%d", w.v2, w.id[1], w.kind, w.rev)
 				if !got[k] {
 					sig := "state-change-missing-or-wrong"
-					if w.kind == "revised" && revert {
+					if sameBlock && w.v2 {
+						sig = "same-block-revision-and-resolution-not-both-recorded"
+					} else if w.kind == "revised" && revert {
 						sig = "reverted-revision-does-not-record-previous-revision"
 					}
 					em.Monitor(sig, fmt.Sprintf("revert=%v: expected %s, got %v", revert, k, got))
